@@ -4,7 +4,7 @@ import os, json, random, time
 from concurrent.futures import ThreadPoolExecutor
 import vlib
 
-KIND_CODES = {"ACQ": 1, "TRY": 2, "REL": 3, "ENQ": 10, "SIGNAL": 11, "WAKE": 12, "BCAST": 13, "TIMEOUT": 14, "RETURN": 15}
+KIND_CODES = {"ACQ": 1, "TRY": 2, "REL": 3, "ENQ": 10, "SIGNAL": 11, "WAKE": 12, "BCAST": 13, "TIMEOUT": 14, "RETURN": 15, "DATA": 20, "LOAD": 21, "CALLBACK": 22}
 
 
 def run_scenarios(hexe, drv_exe, scenarios, sc, tag="s", env=None, timeout=60, workers=None):
